@@ -45,11 +45,6 @@ theorem C18_counterexample_leftover_directory :
     Differs [.createBucket bka, .putObject bka kTU [1] none {} none, .deleteObject bka kTU,
       .putObject bka kT [2] none {} none] := by decide
 
-/-- fs:upload-not-bound-to-key -/
-theorem C18_counterexample_upload_not_bound_to_key :
-    Differs [.createBucket bka, .createMultipartUpload alice bka kA none, .uploadPart alice bka kB (some 1) 1 [1]] := by
-  decide
-
 /-- fs:complete-requires-consecutive-parts -/
 theorem C18_counterexample_complete_requires_consecutive :
     Differs [.createBucket bka, .createMultipartUpload alice bka kA none, .uploadPart alice bka kA (some 1) 2 [1],
@@ -70,6 +65,7 @@ b29f222 complete_multipart_upload into a bucket that no longer exists is `NoSuch
 8faafe7 copy_object gives the destination the metadata and the checksum record of the source, or none;
 c55c267 delete_objects reports every requested key as deleted and accepts a key named twice;
 764f144 list_parts returns the parts in ascending part-number order;
+6bf591c an upload exists only under the bucket and key it was created for: `NoSuchUpload` under any other;
 b89afe2 ranged reads: covered for all ranges by `C18_get_refines_partial` and `C18_range_check`, the kernel cannot
 evaluate the decimal formatter of `Content-Range`) -/
 
@@ -361,6 +357,35 @@ theorem C18_fixed_list_parts_ordered :
       .uploadPart alice bka kA (some 1) 2 [2, 2], .uploadPart alice bka kA (some 1) 10000 [],
       .uploadPart alice bka kA (some 1) 1 [1], .uploadPart alice bka kA (some 1) 2 [2],
       .listParts alice bka kA (some 1)]).2.getLast? = some (.parts [(1, 1), (2, 1), (4, 1), (10000, 0)]) := by decide
+/-- was fs:upload-not-bound-to-key (the witness history of `corpus/fs.txt` first): upload_part, upload_part_copy, list_parts,
+    complete_multipart_upload and abort_multipart_upload under another key or another bucket than the upload's are
+    `NoSuchUpload` on both sides — for the creator and for anybody else — and change nothing: the upload is still there under
+    its own bucket and key, with the part uploaded there, and completes -/
+theorem C18_fixed_upload_bound_to_key :
+    Same [.createBucket bka, .createMultipartUpload alice bka kA none, .uploadPart alice bka kB (some 1) 1 [1]] ∧
+    Same [.createBucket bka, .createBucket [98, 107, 98], .putObject bka kX [3] none {} none,
+      .createMultipartUpload alice bka kA none, .uploadPart alice bka kA (some 1) 1 [1],
+      .uploadPart alice bka kB (some 1) 2 [2], .uploadPart alice [98, 107, 98] kA (some 1) 2 [2],
+      .uploadPartCopy alice bka kB (some 1) 2 bka kX none, .listParts alice bka kB (some 1),
+      .listParts bob [98, 107, 98] kA (some 1), .completeMultipartUpload alice bka kB (some 1) (some [some 1]),
+      .completeMultipartUpload bob [98, 107, 98] kA (some 1) (some [some 1]),
+      .abortMultipartUpload alice bka kB (some 1), .abortMultipartUpload bob bka kB (some 1),
+      .abortMultipartUpload alice [98, 107, 98] kA (some 1), .getObject bka kB none, .listParts alice bka kA (some 1),
+      .completeMultipartUpload alice bka kA (some 1) (some [some 1]), .getObject bka kA none] ∧
+    (run H0 0 {} [.createBucket bka, .createBucket [98, 107, 98], .putObject bka kX [3] none {} none,
+      .createMultipartUpload alice bka kA none, .uploadPart alice bka kA (some 1) 1 [1],
+      .uploadPart alice bka kB (some 1) 2 [2], .uploadPart alice [98, 107, 98] kA (some 1) 2 [2],
+      .uploadPartCopy alice bka kB (some 1) 2 bka kX none, .listParts alice bka kB (some 1),
+      .listParts bob [98, 107, 98] kA (some 1), .completeMultipartUpload alice bka kB (some 1) (some [some 1]),
+      .completeMultipartUpload bob [98, 107, 98] kA (some 1) (some [some 1]),
+      .abortMultipartUpload alice bka kB (some 1), .abortMultipartUpload bob bka kB (some 1),
+      .abortMultipartUpload alice [98, 107, 98] kA (some 1), .getObject bka kB none, .listParts alice bka kA (some 1),
+      .completeMultipartUpload alice bka kA (some 1) (some [some 1]), .getObject bka kA none]).2.drop 5 =
+      [.err .NoSuchUpload, .err .NoSuchUpload, .err .NoSuchUpload, .err .NoSuchUpload, .err .NoSuchUpload,
+       .err .NoSuchUpload, .err .NoSuchUpload, .err .NoSuchUpload, .err .NoSuchUpload, .err .NoSuchUpload,
+       .err .NoSuchKey, .parts [(1, 1)], .completed (some (etagOf H0 [1])),
+       .get [1] 1 none (some (etagOf H0 [1])) [] {}] := by decide
+
 /-- was fs:list-delimiter-not-rolled-up, fs:list-delimiter-rewrites-keys, fs:list-ignores-max-keys and the inner-slash part
     of fs:list-prefix-as-path (fe72881; the witness histories of `corpus/fs.txt` first, v2 and v1): with a delimiter the keys
     below it are rolled up into one common prefix, counted once; a delimiter other than `/` leaves the keys as they are;
